@@ -70,6 +70,8 @@ type c16Item struct {
 	// prefix and sender it shares (0 = its own): the same identity registered for two eons
 	Eon     int `json:"eon,omitempty"`
 	IdentOf int `json:"identity_of_trigger,omitempty"`
+	// reg: Pos 1 / 2 = the definition also asks for the address value c16Party in topic 1 / 2
+	Pos int `json:"party_topic,omitempty"`
 }
 
 type c16Spec struct {
@@ -98,9 +100,12 @@ type c16Replay struct {
 var (
 	c16Sig      = crypto.Keccak256Hash([]byte("Ping(uint256)"))
 	c16OtherSig = crypto.Keccak256Hash([]byte("Pong(uint256)"))
+	c16Party    = common.BytesToHash(common.LeftPadBytes([]byte{0xa1, 0x1c, 0xe0}, 32))
+	c16Other    = common.BytesToHash(common.LeftPadBytes([]byte{0xb0, 0xb0}, 32))
 )
 
 type c16Trig struct {
+	pos    int
 	n      int
 	ev     *syncx.Event
 	data   bool
@@ -125,7 +130,7 @@ type c16World struct {
 	env   *syncx.Env
 }
 
-func c16TriggerEvent(n int, data bool, expiry uint64, eon, identOf int) *syncx.Event {
+func c16TriggerEvent(n int, data bool, expiry uint64, eon, identOf, pos int) *syncx.Event {
 	if eon == 0 {
 		eon = 1
 	}
@@ -143,6 +148,15 @@ func c16TriggerEvent(n int, data bool, expiry uint64, eon, identOf int) *syncx.E
 			{LogValueRef: shutterservice.LogValueRef{Offset: 0}, ValuePredicate: shutterservice.ValuePredicate{Op: shutterservice.BytesEq, ByteArgs: [][]byte{c16Sig.Bytes()}}},
 			{LogValueRef: shutterservice.LogValueRef{Offset: 4}, ValuePredicate: shutterservice.ValuePredicate{Op: shutterservice.UintGte, IntArgs: []*big.Int{big.NewInt(100)}}},
 			{LogValueRef: shutterservice.LogValueRef{Offset: 3}, ValuePredicate: shutterservice.ValuePredicate{Op: shutterservice.UintEq, IntArgs: []*big.Int{big.NewInt(0)}}},
+		}}
+		def = d.MarshalBytes()
+	}
+	if pos > 0 {
+		// topic 0 == Ping and topic pos == c16Party: two such definitions carry the same
+		// topic values at different positions
+		d := shutterservice.EventTriggerDefinition{Contract: syncx.TargetAddr, LogPredicates: []shutterservice.LogPredicate{
+			{LogValueRef: shutterservice.LogValueRef{Offset: 0}, ValuePredicate: shutterservice.ValuePredicate{Op: shutterservice.BytesEq, ByteArgs: [][]byte{c16Sig.Bytes()}}},
+			{LogValueRef: shutterservice.LogValueRef{Offset: uint64(pos)}, ValuePredicate: shutterservice.ValuePredicate{Op: shutterservice.BytesEq, ByteArgs: [][]byte{c16Party.Bytes()}}},
 		}}
 		def = d.MarshalBytes()
 	}
@@ -164,14 +178,21 @@ func c16LogSpec(kind string) fakechain.LogSpec {
 		return fakechain.LogSpec{Address: syncx.OtherAddr, Topics: []common.Hash{c16Sig}, Data: word(150)}
 	case "low-data":
 		return fakechain.LogSpec{Address: syncx.TargetAddr, Topics: []common.Hash{c16Sig}, Data: word(50)}
+	case "party-first":
+		return fakechain.LogSpec{Address: syncx.TargetAddr, Topics: []common.Hash{c16Sig, c16Party, c16Other}, Data: word(150)}
+	case "party-second":
+		return fakechain.LogSpec{Address: syncx.TargetAddr, Topics: []common.Hash{c16Sig, c16Other, c16Party}, Data: word(150)}
 	}
 	panic("unknown log kind " + kind)
 }
 
 // matches is the reference matching predicate for the generated logs and definitions.
 func (t *c16Trig) matches(kind string) bool {
+	if t.pos > 0 {
+		return (kind == "party-first" && t.pos == 1) || (kind == "party-second" && t.pos == 2)
+	}
 	switch kind {
-	case "match":
+	case "match", "party-first", "party-second":
 		return true
 	case "low-data":
 		return !t.data
@@ -202,8 +223,8 @@ func newC16World(spec c16Spec, maxRange uint64) *c16World {
 		var trigs []*c16Trig
 		for i, it := range order {
 			if it.Type == "reg" {
-				t := &c16Trig{n: it.Trigger, data: it.Data, r: uint64(h), e: uint64(h + it.TTL), logIdx: i}
-				t.ev = c16TriggerEvent(it.Trigger, it.Data, t.e, it.Eon, it.IdentOf)
+				t := &c16Trig{n: it.Trigger, data: it.Data, pos: it.Pos, r: uint64(h), e: uint64(h + it.TTL), logIdx: i}
+				t.ev = c16TriggerEvent(it.Trigger, it.Data, t.e, it.Eon, it.IdentOf, it.Pos)
 				t.ident = fmt.Sprintf("eon %d, 0x%s", t.ev.Eon, common.Bytes2Hex(t.ev.Identity()))
 				logs = append(logs, t.ev.Log())
 				trigs = append(trigs, t)
@@ -556,6 +577,7 @@ func replayC16(rp c16Replay) *finding {
 	w := newC16World(rp.Spec, rp.MaxRange)
 	defer w.close()
 	hist := c16Hist{decrypted: map[int]uint64{}}
+	var known *finding
 	for i, st := range rp.Steps {
 		if st.Decrypt != 0 {
 			w.markDecrypted(st.Decrypt, &hist)
@@ -563,10 +585,17 @@ func replayC16(rp c16Replay) *finding {
 		}
 		w.sync(st.Side, st.Height, &hist)
 		if f, _ := w.judge(hist); f != nil {
-			return &finding{sig: f.sig, msg: fmt.Sprintf("after step %d of %d (Sync to %s@%d): %s", i+1, len(rp.Steps), st.Side, st.Height, f.msg)}
+			g := &finding{sig: f.sig, msg: fmt.Sprintf("after step %d of %d (Sync to %s@%d): %s", i+1, len(rp.Steps), st.Side, st.Height, f.msg)}
+			if f.sig == sigD7 || f.sig == sigD7re || f.sig == sigLost {
+				// the search goes on after a recorded finding, so does the replay: a later
+				// deviation of another kind is what the recorded steps are about
+				known = g
+				continue
+			}
+			return g
 		}
 	}
-	return nil
+	return known
 }
 
 func c16() *report.Check {
@@ -623,6 +652,9 @@ func c16Chains(thorough bool) []c16Spec {
 				s := fmt.Sprintf("reg%d@%d+%d", it.Trigger, it.Height, it.TTL)
 				if it.Data {
 					s += "d"
+				}
+				if it.Pos != 0 {
+					s += fmt.Sprintf("(party in topic %d)", it.Pos)
 				}
 				if it.Eon != 0 || it.IdentOf != 0 {
 					s += fmt.Sprintf("(eon %d, identity of %d)", it.Eon, it.IdentOf)
@@ -704,6 +736,22 @@ func c16Chains(thorough bool) []c16Spec {
 						a.Eon, c.Eon, c.IdentOf = first, 3-first, 1
 						emit(a, c, lg(b, "match", false))
 					}
+				}
+			}
+		}
+	}
+	// two triggers whose definitions carry the same topic values at different positions
+	// ("party sends" / "party receives"), one log for each, both triggers active together
+	for r := 1; r < L; r++ {
+		for b1 := r + 1; b1 <= L; b1++ {
+			for b2 := r + 1; b2 <= L; b2++ {
+				for _, swap := range []bool{false, true} {
+					a, c := reg(1, r, L, false), reg(2, r, L, false)
+					a.Pos, c.Pos = 1, 2
+					if swap {
+						a.Pos, c.Pos = 2, 1
+					}
+					emit(a, c, lg(b1, "party-first", false), lg(b2, "party-second", false))
 				}
 			}
 		}
